@@ -23,7 +23,7 @@ func init() {
 			"accessor in the program); (2) guarded-reference escape: a map loaded under RLock and iterated after RUnlock is reported. " +
 			"Does not decide: absence of data races on other state, atomicity of multi-call listings, or anything about goroutine schedules as such — " +
 			"only that the structural precondition (iteration and mutation share a lock) holds at every site.",
-		Fixtures: []string{"lockset", "escape"},
+		Fixtures: []string{"lockset", "guardcut"},
 		Variants: []Variant{
 			{Name: "players-snapshot-outside-lock", File: pkgProxy + "/proxy.go",
 				Old:    "func (p *Proxy) PlayerCount() int {\n\tp.muP.RLock()\n\tdefer p.muP.RUnlock()\n\treturn len(p.playerIDs)",
